@@ -27,6 +27,10 @@ func init() {
 				}
 				checkThreadedState(p, r, "R15j", es, 2)
 			}},
+			{ID: "R15l", Statement: "every root a block empties is marked", Run: func(p *Program, r *Report) {
+				r.Rule("R15l", "MARK-EVERY-EMPTIED-ROOT: the outermost loop around the store that marks a tracked root as emptied is left only through its own bound (a block can empty several trees)")
+				checkMarkEveryEmptiedRoot(p, r, "R15l", "delRootInfo")
+			}},
 			{ID: "R15k", Statement: "the tracker's simulation of overwritten empty roots agrees with the verifier's", Run: func(p *Program, r *Report) {
 				r.Rule("R15k", "SIBLING-SIMULATIONS-AGREE: the tracker's and the verifier's simulation of the empty roots that additions write over have the same control structure over their inputs (early exits, loop bounds, the test under which a position is recorded)")
 				checkSiblingSimulations(p, r, "R15k", "rootsToDestory", "rootInfoToDestroy")
